@@ -2,3 +2,4 @@ import DrandProofs.C16
 import DrandProofs.C17
 import DrandProofs.C18
 import DrandProofs.C02
+import DrandProofs.C12
